@@ -14,6 +14,7 @@ from pyvc.interp import PyRaise, Obj
 from spec import regfields as RF
 
 QUICK_WIDTHS = [1, 2, 3, 4, 5, 6, 7, 8, 16, 32, 64]
+DEPENDENTS = ['C01', 'C02', 'C03', 'C04', 'C05', 'C06', 'C07', 'C08', 'C09', 'C10', 'C11', 'C12', 'C18', 'C19']
 
 
 def units(tier):
@@ -85,6 +86,9 @@ def units(tier):
     pu(sh.thumb_expand_imm, [('imm12', U(12))],
        spec=lambda i: P.ThumbExpandImm_C(i, 0)[0], dontcare=lambda i: P.ThumbExpandImm_C(i, 0)[2])
     out += regview_units(tier)
+    for u in out:
+        # the step-level proofs use these contracts at call sites: their obligations are part of those claims
+        u.props = ['C17'] + [p for p in DEPENDENTS if p != 'C17']
     return out
 
 
